@@ -301,7 +301,7 @@ def k4(ctx, fx, A):
                     read.add(const_value(n2.kids[1]))
     written = set()
     typ_written = False
-    hfns = [f for n, f in fx.fns.items() if n.startswith("holder::SDJWTHolder::")]
+    hfns = [fx.view(n) for n in fx.fns if n.startswith("holder::SDJWTHolder::")]
     hash_ok = False
     for f in hfns:
         fv = vals(f)
@@ -317,8 +317,8 @@ def k4(ctx, fx, A):
                         if hs and must(v, lambda x: x in hs):
                             x = hs[0].kids[0]
                             hash_ok = may(x, lambda n: is_field(n, "serialized_sd_jwt")) and may(x, lambda n: const_value(n) == "~") and may(x, lambda n: is_field(n, "hs_disclosures"))
-        for w in (common.struct_field_writes(fx, "jsonwebtoken::Header", "typ") or []):
-            if w["fn"] is f and w["value"] is not None and may(w["value"], lambda x: const_value(x) == "kb+jwt"):
+        for w in (common.struct_field_writes(fx, "jsonwebtoken::Header", "typ", fns=[f]) or []):
+            if w["value"] is not None and may(w["value"], lambda x: const_value(x) == "kb+jwt"):
                 typ_written = True
     ctx.stats["kb_claims_read_by_verifier"] = sorted(read)
     ctx.stats["kb_claims_written_by_holder"] = sorted(written)
